@@ -281,9 +281,13 @@ def run(run):
         w['reference_writer_pads_lengths'] = bool(pad)
         if pad:
             run.count('streams_with_padded_length_fields')
+        # (and the deflate streams come in the forms different peers produce)
+        zmode = ('finished', 'sync-flush', 'blocks', 'stored')[si % 4]
+        w['reference_writer_zlib_streams'] = zmode
+        run.seen('reference_zlib_stream_forms', zmode)
         ref_plain = b''.join(framing.frame(i[1], ref_payload(i), th,
                                            level=rng.choice((1, 6, 9)),
-                                           pad=pad)
+                                           pad=pad, zmode=zmode)
                              for i in seq)
         ref_wire = cfb8.CFB8(secret, secret).encrypt(ref_plain) \
             if cipher_on else ref_plain
